@@ -12,7 +12,7 @@ except ImportError:
     from ordereddict import OrderedDict
 
 import re
-from copy import deepcopy
+from copy import copy, deepcopy
 import inspect
 import itertools
 import numpy
@@ -710,6 +710,46 @@ class Group(object):
         return self._has_code('reduce')
 
 
+def _get_representative(instances):
+    """Return an instance to generate the wrapper class of `instances` from.
+
+    One wrapper class is generated per equation class and every instance is
+    re-created from its ``__dict__`` with it.  The attribute types are
+    detected from the values of one instance (bool -> int, int -> long,
+    float -> double), so a numeric attribute must be declared with the widest
+    type it has in any of the instances: with ``[Eq(alpha=0.5), Eq(alpha=1)]``
+    ``alpha`` has to be a double and not a long.
+    """
+    rep = instances[-1]
+    if len(instances) == 1:
+        return rep
+
+    def rank(value):
+        if isinstance(value, bool):
+            return 0
+        elif isinstance(value, int):
+            return 1
+        elif isinstance(value, float):
+            return 2
+        return None
+
+    convert = (bool, int, float)
+    changes = {}
+    for name, value in rep.__dict__.items():
+        r = rank(value)
+        if r is None:
+            continue
+        widest = max(
+            [r] + [rank(x.__dict__.get(name)) or 0 for x in instances]
+        )
+        if widest > r:
+            changes[name] = convert[widest](value)
+    if changes:
+        rep = copy(rep)
+        rep.__dict__.update(changes)
+    return rep
+
+
 class CythonGroup(Group):
     ##########################################################################
     # Non-public interface.
@@ -856,7 +896,7 @@ class CythonGroup(Group):
 
     def get_equation_wrappers(self, known_types={}):
         classes = defaultdict(lambda: 0)
-        eqs = {}
+        eqs = defaultdict(list)
         for equation in self.equations:
             cls = equation.__class__.__name__
             n = classes[cls]
@@ -864,13 +904,13 @@ class CythonGroup(Group):
                 camel_to_underscore(equation.name), n
             )
             classes[cls] += 1
-            eqs[cls] = equation
+            eqs[cls].append(equation)
         wrappers = []
         predefined = dict(get_predefined_types(self.pre_comp))
         predefined.update(known_types)
         code_gen = CythonGenerator(known_types=predefined)
         for cls in sorted(classes.keys()):
-            code_gen.parse(eqs[cls])
+            code_gen.parse(_get_representative(eqs[cls]))
             wrappers.append(code_gen.get_code())
         return '\n'.join(wrappers)
 
